@@ -472,7 +472,7 @@ KNOWN_PROBES = [
 ]
 
 ADVERSARIAL = ['C', 'S', 'T', 'Ok', 'Err', 'Some', 'None', 'Result', 'Option', 'Default', 'Debug', 'Self_', 'Box', 'Send',
-               'PhantomData', 'Sync', 'Copy', 'M']
+               'PhantomData', 'Sync', 'Copy', 'M', 'Any', 'All', 'Initial', 'State', 'Event']
 
 def rename_twin_probe(adv, concrete, dynamic):
     """a definition whose first leaf is called `adv`, and its twin with a neutral name; the probes of both
